@@ -184,7 +184,8 @@ def rand_zone(r, idx):
 
 # footers on which earlier probing found the library wrong (kept in every run so that the
 # behaviour class is always exercised): rule times that cross a year boundary
-SPECIAL_FOOTERS = [b"AAA5BBB,0/-1,J300/0", b"AAA5BBB,J1/-167,J200", b"AAA-3BBB,M1.1.1/-167,M7.1.0",
+SPECIAL_FOOTERS = [b"AAA5BBB,M3.2.0,J338/11:30", b"AAA5BBB,J338/10:30,M12.5.0",      # a change within seconds of time_point::max()
+                   b"AAA5BBB,0/-1,J300/0", b"AAA5BBB,J1/-167,J200", b"AAA-3BBB,M1.1.1/-167,M7.1.0",
                    b"AAA5BBB,M3.2.0,365/25", b"AAA5BBB,J60,J300", b"AAA5BBB,59,J300/26:30"]
 
 
@@ -195,11 +196,19 @@ def special_zone(i, footer):
     return "gen/special-%d-%s" % (i, footer.decode().replace("/", "_")), tzif(2, trans, types, footer)
 
 
+def old_zone(i, footer, last):
+    """All recorded data long before 1970 (so the 2038 sentinel and the rule extension interact)."""
+    types = [(-17762, False, b"LMT"), (-18000, False, b"EST"), (-14400, True, b"EDT")]
+    return "gen/old-%d-%s" % (i, footer.decode().replace("/", "_")), tzif(2, [(last, 1)], types, footer)
+
+
 def write_corpus(outdir, seed, n):
     os.makedirs(outdir, exist_ok=True)
     r = random.Random(seed)
     out = []
     items = [special_zone(i, f) for i, f in enumerate(SPECIAL_FOOTERS)]
+    items += [old_zone(0, b"EST5EDT,M3.2.0,M11.1.0", -14830000000), old_zone(1, b"EST5EDT,M4.5.0,M10.5.0", -3000000000),
+              old_zone(2, b"EST5EDT,M3.2.0,M11.1.0", -12700000000), old_zone(3, b"EST5EDT,J60,J300", -86400 * 200)]
     items += [rand_zone(r, i) for i in range(n)]
     for name, data in items:
         p = os.path.join(outdir, name.replace("/", "_") + ".tzif")
